@@ -36,7 +36,7 @@ REQUIRED = ["Sqfs.C19." + t for t in (
     "rbtree_copy_equiv", "rbtree_built_wellformed", "copy_equiv_dirCache", "array_copy_equiv", "strtable_copy_equiv")]
 COMPS = ["gzip", "xz", "lzma", "lz4", "zstd"]
 ENV_KINDS = ("meta", "dir", "data", "xattr")
-WRAP = "-Wl,--wrap=malloc,--wrap=calloc,--wrap=realloc,--wrap=dup,--wrap=deflateInit2_,--wrap=inflateInit_,--wrap=ZSTD_createCCtx"
+WRAP = "-Wl,--wrap=malloc,--wrap=calloc,--wrap=realloc,--wrap=dup,--wrap=deflateInit2_,--wrap=inflateInit_,--wrap=ZSTD_createCCtx,--wrap=mmap"
 # memcpy(NULL, NULL, 0) in array_init_copy of an empty array is flagged by UBSan's nonnull-attribute check; it is
 # harmless on every libc and not what C19 is about, so that one check is off for this property's builds.
 LIBFLAGS = ["-fno-sanitize=nonnull-attribute"]
@@ -48,6 +48,18 @@ def build(ctx):
     harness = ctx.cc("h_c19", ["h_c19.c"], flags=LIBFLAGS, libs=[str(lib)] + vlib.CODEC_LIBS + [WRAP])
     gen = ctx.build_tool("gensquashfs", tag="c19", flags=LIBFLAGS)
     return harness, gen
+
+
+def build_pool(ctx):
+    """/repo's DEFAULT configuration (pool allocator: NO_CUSTOM_ALLOC not defined, mempool.c compiled): the harness once under
+    ASan+UBSan+LSan, once uninstrumented (nothing between the code and the kernel's munmap; use-after-release canary).
+    mempool.c is #include'd by the harness (it looks into the pools), so it stays out of the archives."""
+    out = {}
+    for tag, san in (("c19p", True), ("c19pu", False)):
+        lib = ctx.build_lib(tag, flags=LIBFLAGS if san else [], sanitize=san, custom_alloc=True, exclude=("lib/util/src/mempool.c",))
+        out["asan" if san else "plain"] = ctx.cc("h_" + tag, ["h_c19.c"], flags=(LIBFLAGS if san else []) + ["-UNO_CUSTOM_ALLOC"], sanitize=san,
+                                                 libs=[str(lib)] + vlib.CODEC_LIBS + [WRAP])
+    return out
 
 
 def tree_files(r, B):
